@@ -98,26 +98,31 @@ Ltac pull_let :=
   match goal with
   | |- (let x := ?v in @?b x) = ?R => let y := fresh x in set (y := v); change (b y = R); cbv beta
   end.
+(* the same under a name chosen here (the proof must not depend on the names of the Rust locals) *)
+Ltac pull_let_as y :=
+  match goal with
+  | |- (let x := ?v in @?b x) = ?R => set (y := v); change (b y = R); cbv beta
+  end.
 
 Lemma g_atm_write_prefix_eq s f : g_atm_write_prefix s f = wrote f (atm_prefix s).
 Proof. cbv delta [g_atm_write_prefix atm_prefix]. cbv beta. rewrite g_atm_is_plain_eq.
   destruct (atm_is_plain s); [unfold wrote; now rewrite app_nil_r|].
-  pull_let. cbv iota. pull_let. pull_let.
-  assert (Hwc : forall c g w, write_char c (g, w) = Some ((g ++ sep w ++ [c], true), inl tt)).
-  { intros c g w. unfold write_char, atm_write_str, atm_char. destruct w; cbn [sep app]; rewrite <- ?app_assoc; reflexivity. }
+  pull_let_as pf0. cbv iota. pull_let_as wr0. pull_let_as wc.
+  assert (Hwc : forall c g w, wc c (g, w) = Some ((g ++ sep w ++ [c], true), inl tt)).
+  { intros c g w. unfold wc, atm_write_str, atm_char. destruct w; cbn [sep app]; rewrite <- ?app_assoc; reflexivity. }
   pull_let.
-  rewrite (flag_stage write_char Hwc).
-  do 7 (match goal with |- ?k _ _ = _ => subst k end; cbv beta; pull_let; rewrite (flag_stage write_char Hwc)).
+  rewrite (flag_stage wc Hwc).
+  do 7 (match goal with |- ?k _ _ = _ => subst k end; cbv beta; pull_let; rewrite (flag_stage wc Hwc)).
   match goal with |- ?k ?F ?W = _ => set (F0 := F); set (W0 := W) end.
   assert (HF : F0 = f ++ [27; 91] ++ joinw false (atm_flag_params s)).
-  { subst F0 f2 written_anything. unfold atm_write_str, atm_flag_params.
+  { subst F0 pf0 wr0. unfold atm_write_str, atm_flag_params.
     destruct (atm_bold s), (atm_dimmed s), (atm_italic s), (atm_underline s), (atm_blink s), (atm_reverse s), (atm_hidden s), (atm_strike s);
       cbn [orb sep app joinw]; rewrite <- ?app_assoc; reflexivity. }
   assert (HW : W0 = ne (atm_flag_params s)).
-  { subst W0 written_anything. unfold atm_flag_params.
+  { subst W0 wr0. unfold atm_flag_params.
     destruct (atm_bold s), (atm_dimmed s), (atm_italic s), (atm_underline s), (atm_blink s), (atm_reverse s), (atm_hidden s), (atm_strike s); reflexivity. }
   clearbody F0 W0. subst F0 W0.
-  match goal with |- ?k _ _ = _ => subst k end. clear Hwc. clear write_char.
+  match goal with |- ?k _ _ = _ => subst k end. clear Hwc. clear wc.
   unfold wrote, atm_params. rewrite atm_join_joinw, !joinw_app. cbn [orb].
   generalize (joinw false (atm_flag_params s)) as fl. generalize (ne (atm_flag_params s)) as w. intros w fl.
   destruct (atm_bg s) as [cb|], (atm_fg s) as [cf|], w;
